@@ -1,2 +1,7 @@
+from contracts.decoder_c import init_tasks
+
+
 def add(run, tier):
-    pass
+    for t in init_tasks('C10'):
+        run.add(t)
+    run.assume('the constructor is checked for argument lists of at most two entries (loops unrolled: bounded in the list length, entries symbolic)')
